@@ -4,6 +4,7 @@
   records what it removes as completed and never calls a receiver.
 -/
 import NutsModel.C14.Api
+import NutsModel.Facts.C14
 import NutsProofs.Props.C14
 
 namespace Nuts.C14.Props
@@ -241,5 +242,18 @@ example : (cleanup (wCfg true neverDone) (fun s => s!"sub{s}") "sub1" (fun e => 
     (run (wCfg true neverDone) init exhaustOps)).1.shelf 1 0 = none := by decide
 example : (cleanup (wCfg true neverDone) (fun s => s!"sub{s}") "sub1" (fun e => e == .generic) (fun _ => false) none [0, 1, 2]
     (run (wCfg true neverDone) init exhaustOps)).1.shelf 1 0 = some { type := .tx, retries := 20, err := .incomplete } := by decide
+
+/-- api/v1 ListEvents as modelled by `listEvents`: one entry per notifier of Subscribers() (appended unconditionally), one
+    row per failed event (appended unconditionally), the first GetFailedEvents error aborts; the row carries name, hash,
+    retries, type, error -/
+theorem fact_list_events :
+    Facts.C14.listEventsReturns = ["range a.Service.Subscribers() && err != nil => return nil, err", "return response, nil"] ∧
+    Facts.C14.listEventsAppends =
+      ["range a.Service.Subscribers() > range events > eventSubscriber.Events = append(eventSubscriber.Events, Event{…})",
+       "range a.Service.Subscribers() > response = append(response, eventSubscriber)"] ∧
+    Facts.C14.listEventsFields =
+      ["EventSubscriber.Name: notifier.Name()", "Event.Error: &eventError", "Event.Hash: event.Hash.String()", "Event.Retries: event.Retries",
+       "Event.LatestNotificationAttempt: &eventLatest", "Event.Transaction: event.Transaction.Ref().String()", "Event.Type: &eventType"] :=
+  ⟨rfl, rfl, rfl⟩
 
 end Nuts.C14.Props
